@@ -535,7 +535,9 @@ class BGP(protocol.Protocol):
         self.peer_id = open_msg.bgp_id
         self.bgp_peering.set_peer_id(open_msg.bgp_id)
 
-        self.negotiate_hold_time(open_msg.hold_time)
+        if self.fsm.state in (bgp_cons.ST_CONNECT, bgp_cons.ST_ACTIVE, bgp_cons.ST_OPENSENT):
+            # the hold time is negotiated once, by the OPEN that opens the session
+            self.negotiate_hold_time(open_msg.hold_time)
         self.fsm.open_received()
 
         self.handler.open_received(self, timestamp, parse_result)
